@@ -4,8 +4,11 @@ annotations (`AExpr`), proved sound in `Proofs/SurfTyCheck.lean` (`inferA_sound`
 the annotations with the untrusted unification-based elaborator in `SurfTyElab.lean` and then runs
 this checker, so that "the model accepts the program" always means "a `HasType` derivation exists".
 
-It plays the role of check/src/typecheck.rs `typecheck_` (:671) restricted to monomorphic types:
-synthesis only, equality of types where the real checker unifies (`unify_type.rs:313 zip_match`).
+It plays the role of check/src/typecheck.rs `typecheck_` (:671): synthesis only, equality of types
+where the real checker unifies (`unify_type.rs:313 zip_match`). It is POLYMORPHIC: contexts hold
+syntactic schemes `forall vs . τ` (`Scheme`), `letp x vs e₁ e₂` generalises `x` over `vs` (checked
+not free in the context), a variable carries the instantiation of its scheme. `den`/`denCtx` give
+the schemes their meaning as the semantic schemes of `SurfTy.HasType`.
 -/
 import GluonModel.SurfTy
 namespace GluonModel.SurfTy
@@ -15,10 +18,13 @@ mutual
 inductive AExpr where
   | int (n : Int)
   | str (s : String)
-  | var (x : String)
+  /-- a variable with the types its scheme's quantified variables are instantiated with -/
+  | var (x : String) (insts : List STy)
   | lam (xs : List (String × STy)) (body : AExpr)
   | app (f : AExpr) (args : AList)
   | let_ (p : Pat) (e₁ e₂ : AExpr)
+  /-- `let x = e₁ in e₂` with `x` generalised over the type variables `vs` -/
+  | letp (x : String) (vs : List Nat) (e₁ e₂ : AExpr)
   | letrec (binds : ABinds) (body : AExpr)
   | ite (c a b : AExpr)
   | prim (op : String) (a b : AExpr)
@@ -48,10 +54,11 @@ mutual
 def AExpr.erase : AExpr → Expr
   | .int n => .int n
   | .str s => .str s
-  | .var x => .var x
+  | .var x _ => .var x
   | .lam xs body => .lam (xs.map Prod.fst) body.erase
   | .app f args => .app f.erase args.erase
   | .let_ p e₁ e₂ => .let_ p e₁.erase e₂.erase
+  | .letp x _ e₁ e₂ => .let_ (.var x) e₁.erase e₂.erase
   | .letrec binds body => .letrec binds.erase body.erase
   | .ite c a b => .ite c.erase a.erase b.erase
   | .prim op a b => .prim op a.erase b.erase
@@ -90,12 +97,73 @@ def STy.beq : STy → STy → Bool
   | .recd as, .recd bs => beqList as bs
   | .named a, .named b => a == b
   | .arr a, .arr b => STy.beq a b
+  | .tvar a, .tvar b => a == b
   | _, _ => false
 def beqList : List STy → List STy → Bool
   | [], [] => true
   | a :: as, b :: bs => STy.beq a b && beqList as bs
   | _, _ => false
 end
+
+/-! substitution of type variables, occurrence, syntactic schemes -/
+mutual
+def STy.subst (R : Nat → STy) : STy → STy
+  | .int => .int
+  | .str => .str
+  | .bool => .bool
+  | .fn a b => .fn (a.subst R) (b.subst R)
+  | .recd fs => .recd (substList R fs)
+  | .named d => .named d
+  | .arr t => .arr (t.subst R)
+  | .tvar n => R n
+def substList (R : Nat → STy) : List STy → List STy
+  | [] => []
+  | t :: ts => t.subst R :: substList R ts
+end
+
+mutual
+def STy.occurs (v : Nat) : STy → Bool
+  | .fn a b => a.occurs v || b.occurs v
+  | .recd fs => occursList v fs
+  | .arr t => t.occurs v
+  | .tvar n => n == v
+  | _ => false
+def occursList (v : Nat) : List STy → Bool
+  | [] => false
+  | t :: ts => t.occurs v || occursList v ts
+end
+
+/-- a syntactic type scheme `forall vs . τ` (check: `Type::Forall`, base/src/types/mod.rs) -/
+abbrev Scheme := List Nat × STy
+
+/-- the checker's contexts: names with syntactic schemes -/
+abbrev PCtx := List (String × Scheme)
+
+/-- `[vs := ts]`, the identity elsewhere -/
+def instSub : List Nat → List STy → Nat → STy
+  | v :: vs, t :: ts, n => if n = v then t else instSub vs ts n
+  | _, _, n => .tvar n
+
+/-- is `v` free in some scheme of the context? -/
+def freeInCtx (v : Nat) : PCtx → Bool
+  | [] => false
+  | (_, (ws, t)) :: Γ => (t.occurs v && !ws.contains v) || freeInCtx v Γ
+
+def bindP : List String → List STy → PCtx → PCtx
+  | x :: xs, t :: ts, Γ => bindP xs ts ((x, ([], t)) :: Γ)
+  | _, _, Γ => Γ
+
+def recP (group : List (String × List String × Expr)) (τs : List STy) (Γ : PCtx) : PCtx :=
+  ((group.zip τs).map fun (b, t) => (b.1, (([] : List Nat), t))).reverse ++ Γ
+
+def liftP (Δ : MCtx) : PCtx := Δ.map fun b => (b.1, (([] : List Nat), b.2))
+
+/-- The meaning of a syntactic scheme under a valuation `R` of the type variables that are free
+    in it: all instances — the quantified variables range over all types. -/
+def den (R : Nat → STy) (s : Scheme) : Sch :=
+  fun t => ∃ R' : Nat → STy, (∀ n, n ∉ s.1 → R' n = R n) ∧ t = s.2.subst R'
+
+def denCtx (R : Nat → STy) (Γ : PCtx) : Ctx := Γ.map fun b => (b.1, den R b.2)
 
 /-- `peel φ σs = some τ` iff `φ = funTy σs τ` (argument types compared with `beq`) -/
 def peel : STy → List STy → Option STy
@@ -129,7 +197,7 @@ section
 variable (D : Decls)
 
 mutual
-def patCheck : Pat → STy → Option Ctx
+def patCheck : Pat → STy → Option MCtx
   | .wild, _ => some []
   | .var x, τ => some [(x, τ)]
   | .int _, .int => some []
@@ -147,7 +215,7 @@ def patCheck : Pat → STy → Option Ctx
     match patCheck p τ with
     | some Δ => some ((x, τ) :: Δ)
     | none => none
-def patsCheck : List Pat → List STy → Option Ctx
+def patsCheck : List Pat → List STy → Option MCtx
   | [], [] => some []
   | p :: ps, τ :: τs =>
     match patCheck p τ with
@@ -157,7 +225,7 @@ def patsCheck : List Pat → List STy → Option Ctx
     | none => none
   | [], _ :: _ => none
   | _ :: _, [] => none
-def fieldsCheck : List (Nat × Pat) → List STy → Option Ctx
+def fieldsCheck : List (Nat × Pat) → List STy → Option MCtx
   | [], _ => some []
   | (i, p) :: fs, τs =>
     match τs[i]? with
@@ -170,13 +238,17 @@ def fieldsCheck : List (Nat × Pat) → List STy → Option Ctx
 end
 
 mutual
-def inferA : Ctx → AExpr → Option STy
+def inferA : PCtx → AExpr → Option STy
   | _, .int _ => some .int
   | _, .str _ => some .str
-  | Γ, .var x => lookupCtx Γ x
+  | Γ, .var x insts =>
+    -- INSTANTIATION (typecheck.rs:1004 `Expr::Ident` → `instantiate`)
+    match lookupCtx Γ x with
+    | some (vs, τ) => if insts.length == vs.length then some (τ.subst (instSub vs insts)) else none
+    | none => none
   | Γ, .lam xs body =>
     if xs.isEmpty then none
-    else match inferA (bindCtx (xs.map Prod.fst) (xs.map Prod.snd) Γ) body with
+    else match inferA (bindP (xs.map Prod.fst) (xs.map Prod.snd) Γ) body with
       | some ρ => some (funTy (xs.map Prod.snd) ρ)
       | none => none
   | Γ, .app f args =>
@@ -188,12 +260,18 @@ def inferA : Ctx → AExpr → Option STy
   | Γ, .let_ p e₁ e₂ =>
     match inferA Γ e₁ with
     | some σ => match patCheck D p σ with
-      | some Δ => inferA (Δ ++ Γ) e₂
+      | some Δ => inferA (liftP Δ ++ Γ) e₂
       | none => none
     | none => none
+  | Γ, .letp x vs e₁ e₂ =>
+    -- GENERALISATION (typecheck.rs:2363 `generalize_and_clear_subs`): the quantified variables
+    -- must not be free in the context
+    match inferA Γ e₁ with
+    | some τ₁ => if vs.all (fun v => !freeInCtx v Γ) then inferA ((x, (vs, τ₁)) :: Γ) e₂ else none
+    | none => none
   | Γ, .letrec binds body =>
-    if checkBinds (recCtx binds.erase binds.tys Γ) binds
-    then inferA (recCtx binds.erase binds.tys Γ) body
+    if checkBinds (recP binds.erase binds.tys Γ) binds
+    then inferA (recP binds.erase binds.tys Γ) body
     else none
   | Γ, .ite c a b =>
     match inferA Γ c, inferA Γ a, inferA Γ b with
@@ -242,31 +320,35 @@ def inferA : Ctx → AExpr → Option STy
     | some τs => if allBeq t τs then some (.arr t) else none
     | none => none
   | _, .error _ t => some t
-def inferList : Ctx → AList → Option (List STy)
+def inferList : PCtx → AList → Option (List STy)
   | _, .nil => some []
   | Γ, .cons e es =>
     match inferA Γ e, inferList Γ es with
     | some τ, some τs => some (τ :: τs)
     | _, _ => none
-def checkAlts : Ctx → STy → AAlts → STy → Bool
+def checkAlts : PCtx → STy → AAlts → STy → Bool
   | _, _, .nil, _ => true
   | Γ, σ, .cons p e rest, t =>
     match patCheck D p σ with
-    | some Δ => match inferA (Δ ++ Γ) e with
+    | some Δ => match inferA (liftP Δ ++ Γ) e with
       | some τ => STy.beq τ t && checkAlts Γ σ rest t
       | none => false
     | none => false
-def checkBinds : Ctx → ABinds → Bool
+def checkBinds : PCtx → ABinds → Bool
   | _, .nil => true
   | Γ', .cons _ params ret body rest =>
     !params.isEmpty &&
-    (match inferA (bindCtx (params.map Prod.fst) (params.map Prod.snd) Γ') body with
+    (match inferA (bindP (params.map Prod.fst) (params.map Prod.snd) Γ') body with
      | some ρ => STy.beq ρ ret
      | none => false) &&
     checkBinds Γ' rest
 end
 
 end
+
+/-- the declared constructor argument types mention no type variables (true of the generator's
+    header: no parameterised data types in the modelled fragment) -/
+def DClosed (D : Decls) : Prop := ∀ d tag τs, D d tag = some τs → ∀ R, substList R τs = τs
 
 /-- the declaration table of the shared generator's header as a checker input (same table as
     `surfDecls` in SurfTyParse.lean; repeated here so that theorems can mention it) -/
